@@ -74,6 +74,8 @@ pub mod serde;
 pub mod types;
 pub mod util;
 pub mod validator;
+#[cfg(feature = "verif-hooks")]
+pub mod verif_hooks;
 pub mod writer;
 
 #[expect(deprecated)]
